@@ -211,6 +211,6 @@ def fill(claim, na):
         "Trusted: IUPAC oracle table; Cython lowering for parameter types; idiom tables in sa/props/C03.py.",
         "DESIGN.md section 2, C03",
     )
-    for p in ["C04", "C03", "C04", "C05", "C08", "C09", "C10",
+    for p in ["C04", "C05", "C08", "C09", "C10",
               "C11", "C14", "C15", "C16", "C19"]:
         na(p, PENDING)
